@@ -30,7 +30,7 @@ ASSUMPTIONS = [
     "was observed to differ by ulps between calls depending on allocator alignment (third-party, counted as repeat_differs_by_ulps)",
 ]
 REQUIRED_COUNTERS = {
-    "purity": 200, "linearity": 100, "zero_weight": 50, "coord_perm": 100, "ens_perm": 100, "nonneg": 100, "zero_equal": 60,
+    "purity": 200, "linearity": 100, "zero_weight": 50, "coord_perm": 100, "ens_perm": 100, "nonneg": 80, "zero_equal": 60,
     "wrong_len": 100, "user_loss": 40,
 }
 SHARDS = {"quick": 16, "thorough": 16}
